@@ -149,3 +149,23 @@ Proof.
   destruct (s_abort ss); [specialize (H2 eq_refl); discriminate|]. auto.
 Qed.
 
+
+(* close(ackerChan), ackerAbort.Signal() and ackerEnded.Signal() are each executed at most once per session (a second
+   close of a closed channel would panic): whenever the step that executes one of them is enabled, it has not been
+   executed yet.  close(ackerChan) / ackerAbort.Signal() happen on entering collectLeftovers (from a pc that is not
+   "collecting") and on leaving the soft wait; ackerEnded.Signal() when the acknowledger returns (apc <> AEnded). *)
+Lemma signals_once_lemma : forall P s ss,
+  reach P s -> cur s = Some ss ->
+  (collecting (pc s) = false -> s_aclosed ss = false /\ s_abort ss = false) /\
+  (hard_collecting (pc s) = false -> s_abort ss = false) /\
+  (s_apc ss <> AEnded -> s_ended ss = false).
+Proof.
+  intros P s ss Hr Hcur. destruct (closed_only_collecting P s Hr ss Hcur) as [H1 H2].
+  pose proof (inv1_reach P s Hr) as Hi. destruct (i_sess s Hi ss Hcur) as (He & _).
+  repeat split.
+  - destruct (s_aclosed ss); [rewrite (H1 eq_refl) in H; discriminate|reflexivity].
+  - destruct (s_abort ss); [|reflexivity]. specialize (H2 eq_refl).
+    destruct (pc s); simpl in *; discriminate.
+  - intro H. destruct (s_abort ss); [rewrite (H2 eq_refl) in H; discriminate|reflexivity].
+  - intro H. destruct (s_ended ss); [|reflexivity]. destruct (He eq_refl) as [_ Hx]. contradiction.
+Qed.
